@@ -377,6 +377,9 @@ func siteFunc(id int32) string {
 func installHooks(w *Workload) {
 	zzverifrt.Hook = simrt.Yield
 	zzverifrt.Blocked = simrt.BlockedYield
+	zzverifrt.Active = simrt.Active
+	zzverifrt.GoHook = simrt.Spawn
+	simrt.RealSpawned = zzverifrt.RealSpawned
 	zzverifrt.MapOrder = mapOrderFn(w.MapSalt, w.MapPolicy)
 	simrt.SetNoPreempt(&zzverifrt.NoPreempt)
 }
